@@ -218,7 +218,8 @@ func (lex *Lexer) Reset() {
 
 // inOpenString reports whether the input so far ends inside a "..." string.
 func (lex *Lexer) inOpenString() bool {
-	return lex.state == LexerStrLit || lex.state == LexerStrEscaped
+	return lex.state == LexerStrLit || lex.state == LexerStrEscaped ||
+		(lex.state == LexerHexEscape && lex.hexReturn == LexerStrLit)
 }
 
 // flushAtEnd delivers the token that only the end of the input terminates.
